@@ -216,7 +216,17 @@ def c11_templates():
         "edge": [span("h0", NOPAR, "jh", "n1", "A", 1, 2), span("h1", "h0", "jh", "n1", "B", 8, 9)],
         "names": [span("i0", NOPAR, "ji", "n3", "A", 4, 6), span("i1", "i0", "ji", "n1", "B", 4, 6),
                   span("i2", "i0", "ji", "n2", "B", 5, 6)],
+        # one trace with two anomalies at once: a dangling parent below spans that carry other workflow names ...
+        "dangling_names": [span("k0", NOPAR, "jk", "n1", "A", 3, 7), span("k1", "k0", "jk", "n2", "B", 4, 5),
+                           span("k2", "yy", "jk", "n3", "C", 4, 5), span("k3", "k2", "jk", "n1", "C", 4, 5)],
+        # ... outside the window with inconsistent names ...
+        "early_names": [span("m0", NOPAR, "jm", "n2", "A", 0, 1), span("m1", "m0", "jm", "n3", "B", 0, 1)],
+        # ... and outside the window with a dangling parent
+        "late_dangling": [span("p0", NOPAR, "jp", "n1", "A", 9, 10), span("p1", "ww", "jp", "n1", "B", 9, 10)],
     }
+
+
+C11_COMBINED = ("dangling_names", "early_names", "late_dangling")
 
 
 def c11_scenarios(tier, seed):
@@ -227,6 +237,8 @@ def c11_scenarios(tier, seed):
     sizes = (1, 2, 3) if tier == "quick" else (1, 2, 3, 4)
     for n in sizes:
         for combo in itertools.combinations(keys, n):
+            if tier == "quick" and n >= 3 and any(k in C11_COMBINED for k in combo):
+                continue        # the combined-anomaly templates: alone and in pairs (thorough: everywhere)
             for buf in (0, 1, 2):
                 for b in ((2, BIG) if tier == "quick" else (1, 2, 3, BIG)):
                     lists = [T[k] for k in combo]
